@@ -112,6 +112,20 @@ func (c *localCache) Modify(ctx context.Context, name string, opts *Opts, dels [
 	}
 
 	for _, upd := range upds {
+		if opts.Store == cachepb.Store_INTENDED {
+			// an intended store entry is keyed by path, priority, owner and write timestamp.
+			// Remove the superseded versions of the entry (older timestamp), otherwise
+			// reads return the old values along with the new one.
+			err = c.c.DeletePrefix(ctx, name, &cache.Opts{
+				Store:    getStore(opts.Store),
+				Path:     [][]string{upd.GetPath()},
+				Owner:    opts.Owner,
+				Priority: opts.Priority,
+			})
+			if err != nil {
+				return err
+			}
+		}
 		err = c.c.WriteValue(ctx, name, &cache.Opts{
 			Store:    getStore(opts.Store),
 			Path:     [][]string{upd.GetPath()},
